@@ -80,6 +80,8 @@ pub struct Report {
     pub notes: Vec<String>,
     pub inconclusive: Vec<String>,
     pub harness_errors: Vec<String>,
+    /// distinct non-trivial cases counted by child worker processes (their hash sets stay in the children)
+    pub distinct_external: u64,
 }
 
 impl Report {
@@ -186,6 +188,7 @@ impl Report {
         self.notes.extend(o.notes);
         self.inconclusive.extend(o.inconclusive);
         self.harness_errors.extend(o.harness_errors);
+        self.distinct_external += o.distinct_external;
     }
 }
 
@@ -381,7 +384,7 @@ pub struct Outcome {
 
 pub fn finish(ctx: &Ctx, mut rep: Report, rule: &str, assumptions: &[&str], extra: Vec<(String, J)>) -> Outcome {
     let wall = ctx.elapsed();
-    let distinct = rep.distinct.len() as u64;
+    let distinct = rep.distinct.len() as u64 + rep.distinct_external;
     if !rep.harness_errors.is_empty() {
         for e in &rep.harness_errors {
             println!("ERROR property={} {}", ctx.prop, e);
